@@ -23,7 +23,8 @@
 From Coq Require Import List NArith Bool Arith Permutation SetoidList Relations.
 From SK Require Import lib.LGraph lib.Mono model.C06_Model lib.C06_Spec
   proof.C06_All proof.C06_Comp proof.C06_Comps proof.C06_CompSem proof.C06_CompNoDup proof.C06_Prefilter proof.C06_Table proof.C06_Api proof.C06_Main
-  model.C06_Attrs lib.C06_SelSpec proof.C06_Attrs proof.C06_AttrsSpec proof.C06_AttrsEx.
+  model.C06_Attrs lib.C06_SelSpec proof.C06_Attrs proof.C06_AttrsSpec proof.C06_AttrsEx
+  model.C06_Trace proof.C06_Trace proof.C06_TraceEx proof.C06_AttrsComp.
 Import ListNotations.
 
 (** ** 0. What the specification predicates say, written out *)
@@ -316,7 +317,7 @@ Print Assumptions C06_default_call.
 (** ** 6. Attribute dictionaries and selections (model/C06_Attrs.v).  From round 5 on the
     correspondence hands the model the graphs as the caller has them - every node / edge with its
     whole attribute dictionary - and the selections [node_attrs] / [edge_attrs] as lists of names;
-    [run_sel_set] / [run_sel_list] / [run_sel_api] evaluate [find_sel], [quick_pre_filter_sel] and the
+    [run_tr_set] / [run_tr_list] (model/C06_Trace.v) / [run_sel_api] evaluate [find_sel], [quick_pre_filter_sel] and the
     enumerator [monos_sel] run with the two closures of subgraph_matcher.py ([node_match_sel],
     [edge_match_sel]).  [aget k d] is [d.get(k)] (None = 0), [hc l] is [l.get("hcount", 0)]. *)
 
@@ -401,3 +402,80 @@ Theorem C06_sel_refines : forall (na na' ea ea' : list N) (T T' : N) (strict str
   exists m', In m' (find_sel (monos_sel na ea H P) (Cfg 0 0 T strict false) na ea H P) /\ Permutation m m'.
 Proof. exact sel_refines. Qed.
 Print Assumptions C06_sel_refines.
+
+(** ** 7. The VF2 calls of a search (model/C06_Trace.v): intermediate values compared on every case
+    since round 5 - for every configuration the list of (host part, pattern part, number of
+    monomorphisms pulled from the iterator), in call order ([trace], evaluated by [run_tr_set] /
+    [run_tr_list]; the implementation's GraphMatcher is wrapped to count what is pulled). *)
+
+(** how much of an enumeration one loop consumes: all of it, or [max_results] / [cc_limit] items,
+    or threshold + 1 items - whichever comes first ([cap = 0] encodes None) *)
+Theorem C06_pulled_closed : forall (cap thr : N) (it : list mapping),
+  loop_n cap thr it 0 = N.min (lenN it) (N.min (if (cap =? 0)%N then lenN it else cap) (thr + 1)%N).
+Proof. exact pulled_closed. Qed.
+Print Assumptions C06_pulled_closed.
+
+(** the exhaustive strategy depends on the enumeration only through the items it pulled: the
+    monomorphisms VF2 would have listed later have no influence on the result *)
+Theorem C06_all_depends_on_pulled : forall (enum : list N -> list N -> list mapping) (maxr thr : N) (H P : graph),
+  find_all enum maxr thr H P =
+  all_loop maxr thr (firstn (N.to_nat (loop_n maxr thr (enum (node_ids H) (node_ids P)) 0))
+                            (enum (node_ids H) (node_ids P))) [] 0%N.
+Proof. exact find_all_pulled. Qed.
+Print Assumptions C06_all_depends_on_pulled.
+
+(** every call of every configuration is on parts of the two graphs, pulls no more than the
+    enumeration has and never more than threshold + 1 monomorphisms *)
+Theorem C06_trace_calls : forall (enum : list N -> list N -> list mapping) (c : cfg) (H P : graph)
+                                 (hn pn : list N) (k : N),
+  In (hn, pn, k) (trace enum c H P) ->
+  incl hn (node_ids H) /\ incl pn (node_ids P) /\ (k <= lenN (enum hn pn))%N /\ (k <= c_thr c + 1)%N.
+Proof. exact (fun enum c H P hn pn k Hin => trace_ok enum c H P (hn, pn, k) Hin). Qed.
+Print Assumptions C06_trace_calls.
+
+(** ** 8. The second sentence of the property on the caller's graphs (dictionaries + selections).
+    [comps (project na ea g)] lists the connectivity classes of [g] (C06_components; the projection
+    keeps node ids and edges, and the list does not depend on the selections).  Connectivity is written
+    out as the reflexive-transitive closure of "joined by an edge of the caller's graph". *)
+Theorem C06_sel_comp_spec : forall (na ea : list N) (strict : bool) (H P : rgraph),
+  (NoDup (node_ids H) /\ forall a b x, In (a, b, x) (gedges H) -> In a (node_ids H) /\ In b (node_ids H) /\ a <> b) ->
+  (NoDup (node_ids P) /\ forall a b x, In (a, b, x) (gedges P) -> In a (node_ids P) /\ In b (node_ids P) /\ a <> b) ->
+  exists T0 : N, forall T : N, (T0 <= T)%N ->
+  let R := find_sel (monos_sel na ea H P) (Cfg 1 0 T strict false) na ea H P in
+  let hcc := length (comps (project na ea H)) in
+  let pcc := length (comps (project na ea P)) in
+  let conn (g : rgraph) := clos_refl_trans N (fun a b => LGraph.adj g a b <> None) in
+  let sep (m : mapping) := forall p h p' h', In (p, h) m -> In (p', h') m -> conn H h h' -> conn P p p' in
+  NoDupA (@Permutation (N * N)) R /\
+  if (0 <? pcc) && (pcc <? hcc) && strict then R = []
+  else if hcc <? pcc then
+    (forall m, In m R -> is_mono_sel na ea H P m) /\
+    (forall m, is_mono_sel na ea H P m -> exists m', In m' R /\ Permutation m m')
+  else
+    (forall m, In m R -> is_mono_sel na ea H P m /\ sep m) /\
+    (forall m, is_mono_sel na ea H P m -> sep m -> exists m', In m' R /\ Permutation m m').
+Proof. exact sel_comp_spec. Qed.
+Print Assumptions C06_sel_comp_spec.
+
+(** [is_mono_sel] is the predicate written out as [good] in C06_sel_all_exact *)
+Theorem C06_sel_spec_meaning : forall (na ea : list N) (H P : rgraph) (m : mapping),
+  is_mono_sel na ea H P m <->
+  NoDup (map fst m) /\ (forall p, In p (map fst m) <-> In p (node_ids P)) /\ NoDup (map snd m) /\
+  (forall p h, In (p, h) m ->
+     In h (node_ids H) /\
+     (forall k, In k na -> aget k (fst (rlab H h)) = aget k (fst (rlab P p))) /\
+     (hc (rlab P p) <= hc (rlab H h))%N) /\
+  (forall p h p' h' b, In (p, h) m -> In (p', h') m -> LGraph.adj P p p' = Some b ->
+     exists b', LGraph.adj H h h' = Some b' /\ forall k, In k ea -> aget k b' = aget k b).
+Proof. intros na ea H P m. unfold is_mono_sel. reflexivity. Qed.
+Print Assumptions C06_sel_spec_meaning.
+
+Theorem C06_sel_bt_spec : forall (na ea : list N) (strict : bool) (H P : rgraph),
+  exists T0 : N, forall T : N, (T0 <= T)%N ->
+  find_sel (monos_sel na ea H P) (Cfg 2 0 T strict false) na ea H P =
+  match find_sel (monos_sel na ea H P) (Cfg 1 0 T strict false) na ea H P with
+  | [] => find_sel (monos_sel na ea H P) (Cfg 0 0 T strict false) na ea H P
+  | primary => primary
+  end.
+Proof. exact sel_bt_spec. Qed.
+Print Assumptions C06_sel_bt_spec.
